@@ -38,6 +38,8 @@ def emit(which):
           note = m.get("strengthening", "")
           if m.get("initially_missed") and not note.startswith("initially missed"):
               note = "initially missed; added: " + note
+          if m.get("patch_applies_to_head") is False:
+              note = (note + "; " if note else "") + "the patch no longer applies to HEAD (a later fix: commit rewrote the code it changes): the result is from the commit it was written for"
           print("| %s | %s | %s | %s | %s | %s |" % (os.path.basename(d), m.get("property", ""), esc((m.get("title") or m.get("what_breaks", ""))[:160]), esc(str(m.get("needs_to_manifest", ""))[:220]), caught, esc(note)))
 
 if sys.argv[1] == "--write":
